@@ -26,7 +26,6 @@ import (
 	"io"
 	"net"
 	"net/http"
-	"net/http/httputil"
 	"net/url"
 	"sync"
 	"syscall"
@@ -952,26 +951,42 @@ func (s *Stream) upgrade(uri *url.URL, stream sonic.Stream, headers []Header) er
 		return err
 	}
 
-	s.handshakeBuffer = s.handshakeBuffer[:cap(s.handshakeBuffer)]
-	n, err := stream.Read(s.handshakeBuffer)
-	if err != nil {
-		return err
+	// The response may arrive in several segments: read until the blank line which ends it. A successful upgrade
+	// response has no body, so everything after the blank line already belongs to the WebSocket session.
+	var (
+		headerEnd = []byte("\r\n\r\n")
+		resLen    = -1
+	)
+	s.handshakeBuffer = s.handshakeBuffer[:0]
+	for resLen < 0 {
+		if len(s.handshakeBuffer) == cap(s.handshakeBuffer) {
+			if cap(s.handshakeBuffer) >= maxHandshakeResponseLength {
+				return ErrCannotUpgrade
+			}
+			s.handshakeBuffer = append(s.handshakeBuffer, 0)[:len(s.handshakeBuffer)]
+		}
+		n, err := stream.Read(s.handshakeBuffer[len(s.handshakeBuffer):cap(s.handshakeBuffer)])
+		if err != nil {
+			return err
+		}
+		// the terminator may straddle two reads
+		searchFrom := len(s.handshakeBuffer) - len(headerEnd) + 1
+		if searchFrom < 0 {
+			searchFrom = 0
+		}
+		s.handshakeBuffer = s.handshakeBuffer[:len(s.handshakeBuffer)+n]
+		if ix := bytes.Index(s.handshakeBuffer[searchFrom:], headerEnd); ix >= 0 {
+			resLen = searchFrom + ix + len(headerEnd)
+		}
 	}
-	s.handshakeBuffer = s.handshakeBuffer[:n]
-	rd := bytes.NewReader(s.handshakeBuffer)
+
+	rd := bytes.NewReader(s.handshakeBuffer[:resLen])
 	res, err := http.ReadResponse(bufio.NewReader(rd), req)
 	if err != nil {
 		return err
 	}
 
-	rawRes, err := httputil.DumpResponse(res, true)
-	if err != nil {
-		return err
-	}
-
-	resLen := len(rawRes)
-	extra := len(s.handshakeBuffer) - resLen
-	if extra > 0 {
+	if extra := len(s.handshakeBuffer) - resLen; extra > 0 {
 		// we got some frames as well with the handshake so we can put
 		// them in src for later decoding before clearing the handshake
 		// buffer
